@@ -28,6 +28,8 @@ pub fn drive(kind: &str, seed: u64, n: usize, extra: &str, sink: &mut Sink) -> u
         "pwint" => drive_pwint(seed, n, extra, sink),
         "spline" => drive_spline(seed, n, sink),
         "linear" => drive_linear(seed, n, sink),
+        "approx" => drive_approx(seed, n, sink),
+        "serde" => drive_serde(seed, n, sink),
         "calib" => {
             drive_calib(seed, n, sink);
             0
